@@ -46,6 +46,8 @@ def main():
     s = s.replace("ROUND2_TABLE", open(r2).read() if os.path.exists(r2) else "(seeded/TABLE_round2.md)")
     r3 = os.path.join(ROOT, "seeded", "TABLE_round3.md")
     s = s.replace("ROUND3_TABLE", open(r3).read() if os.path.exists(r3) else "(seeded/TABLE_round3.md)")
+    r4 = os.path.join(ROOT, "seeded", "TABLE_round4.md")
+    s = s.replace("ROUND4_TABLE", open(r4).read() if os.path.exists(r4) else "(seeded/TABLE_round4.md)")
     d = open(os.path.join(ROOT, "DESIGN.md")).read()
     marker = "\n---------------------------------------------------------------------------------------------------\n\n## 12. What was built"
     if marker in d:
